@@ -24,16 +24,22 @@ Both are "the globals of the defining module".  A source program (`MProg`) there
               followed by `m.x`; an import statement written INSIDE the calling function's body — the resolver's
               `import_names` / `get_component_from_source` — is the symbol `@m.x`, bound to what module `m` holds)
               and whether its module-level constants have the flipped truth values.
-`link` resolves every body in the table of ITS defining module; `resolveM` / `acceptsM` are `resolve` / `accepts`
-of the linked program.  An identifier that is not bound (`NameError` at run time, "not supported" for the
+`linkD` resolves every identifier as Python does, `linkS` as the resolver does; they differ in exactly two lookups
+(below).  `resolveM` is `resolve` of `linkS`, `acceptsM` is `accepts` of `linkD`; `link` = `linkD`.  An identifier that is not bound (`NameError` at run time, "not supported" for the
 resolver) links to the entry index `entries.length`, which does not exist (nothing offered, nothing accepted).
 
-`super(X, self)` keeps its class index: the generator writes it for `X` = the class being defined only.
-(The resolver finds `X` BY NAME in the module of `classes[idx]`; for a class that inherits such an `__init__`
-into a module that does not bind the name this is the open finding C13-two-arg-super-foreign-module — outside
-this model, the harness does not run the resolver side of the correspondence on those queries; likewise an import
-inside a function body next to a module global of the same identifier: `get_node_component` asks the module first,
-Python the function's locals — open finding C13-local-import-shadowed-by-module-global.)
+The two lookups the resolver does differently from Python (both transcribed, both open findings):
+  * `super(X, self)`: Python evaluates `X` in the globals of the function (the class being defined: the index kept
+    in `Use.superCall`).  `ast_is_supported_super_call` searches `classes[idx:]` for a class whose `__name__` is
+    the identifier and that `inspect.getmodule(classes[idx])` binds under that name — the module of the class that
+    was ASKED for when an inherited `__init__` is visited (MRO index 0).  `superPairs` computes, for every class `h`
+    and every `X` written in the body visited with `classes[idx] = h`, what that search finds; results other than
+    `X` itself go to `Prog.superMap` of `linkS` (finding C13-two-arg-super-foreign-module).
+  * an import statement inside the calling body (`localImp`: symbol ↦ (library module, identifier)): Python binds
+    the identifier in the function's locals; `get_node_component` tries `hasattr(module, identifier)` FIRST and
+    uses the recorded import statement only when the module does not bind it (`MProg.lookup true`; finding
+    C13-local-import-shadowed-by-module-global).
+`noForeignTwoArgSuper` and `noShadowedLocalImport` are the decidable complements; under both `linkS = linkD`.
 Imports nothing beyond core Lean.
 -/
 import Jap.Core.Resolver
@@ -50,21 +56,41 @@ structure MProg where
   modOf : List Nat
   cmDef : List (List Nat)
   mods : List Module
+  /-- the `__name__` of entry `i` as a symbol (default: no entry shares a name) -/
+  nameSym : List Nat := []
+  /-- symbols bound by an import statement INSIDE the calling body: symbol ↦ (library module, identifier there) -/
+  localImp : List (Nat × (Nat × Nat)) := []
 deriving DecidableEq, Repr
 
 /-- `getattr(module, identifier)`; `miss` when the module does not bind it -/
 def lookupSym (M : Module) (miss s : Nat) : Nat :=
   (M.globals.lookup s).getD miss
 
-def linkTarget (M : Module) (miss : Nat) : Target → Target
-  | .entry s => .entry (lookupSym M miss s)
-  | .attrEntry s => .attrEntry (lookupSym M miss s)
-  | .classMeth s j => .classMeth (lookupSym M miss s) j
+def MProg.moduleAt (MP : MProg) (m : Nat) : Module := MP.mods.getD m default
+
+/-- the entry an identifier written in a body of module `M` denotes.
+    `stat = false`: Python — a name imported inside the body is a local of the function;
+    `stat = true`: `get_node_component` — `hasattr(module, id)` first, the import statement recorded for the call
+    (`source`) only when the module does not bind the identifier. -/
+def MProg.lookup (MP : MProg) (stat : Bool) (miss : Nat) (M : Module) (s : Nat) : Nat :=
+  match MP.localImp.lookup s with
+  | none => lookupSym M miss s
+  | some (lib, x) =>
+    if stat then
+      match M.globals.lookup x with
+      | some e => e
+      | none => lookupSym (MP.moduleAt lib) miss x
+    else lookupSym (MP.moduleAt lib) miss x
+
+def linkTarget (lk : Nat → Nat) : Target → Target
+  | .entry s => .entry (lk s)
+  | .attrEntry s => .attrEntry (lk s)
+  | .classMeth s j => .classMeth (lk s) j
   | .selfMeth j => .selfMeth j
   | .clsSelf => .clsSelf
 
-def linkUse (M : Module) (miss : Nat) : Use → Use
-  | .call t k g => .call (linkTarget M miss t) k g
+def linkUse (lk : Nat → Nat) : Use → Use
+  | .call t k g => .call (linkTarget lk t) k g
   | u => u
 
 /-- `visit_If`: `bool(component_globals[test.id])` -/
@@ -72,29 +98,27 @@ def linkGuard (M : Module) : Guard → Guard
   | .const b => .const (b != M.flip)
   | g => g
 
-def linkGUse (M : Module) (miss : Nat) (g : GUse) : GUse :=
-  ⟨linkGuard M g.guard, linkUse M miss g.use⟩
+def linkGUse (L : Module → Nat → Nat) (M : Module) (g : GUse) : GUse :=
+  ⟨linkGuard M g.guard, linkUse (L M) g.use⟩
 
-def linkCallable (M : Module) (miss : Nat) (c : Callable) : Callable :=
-  { c with uses := c.uses.map (linkGUse M miss) }
+def linkCallable (L : Module → Nat → Nat) (M : Module) (c : Callable) : Callable :=
+  { c with uses := c.uses.map (linkGUse L M) }
 
 /-- the classmethods a class offers, each linked in the module of the class that defines it -/
-def linkCms (g : Nat → Module) (miss : Nat) : Nat → List Callable → List Callable
+def linkCms (L : Module → Nat → Nat) (g : Nat → Module) : Nat → List Callable → List Callable
   | _, [] => []
-  | j, c :: cs => linkCallable (g j) miss c :: linkCms g miss (j + 1) cs
+  | j, c :: cs => linkCallable L (g j) c :: linkCms L g (j + 1) cs
 
-def linkEntry (f : Module) (g : Nat → Module) (miss : Nat) : Entry → Entry
-  | .fn c => .fn (linkCallable f miss c)
-  | .cls k => .cls { init := k.init.map (linkCallable f miss), mro := k.mro,
-                     meths := k.meths.map (linkCallable f miss), cmeths := linkCms g miss 0 k.cmeths }
+def linkEntry (L : Module → Nat → Nat) (f : Module) (g : Nat → Module) : Entry → Entry
+  | .fn c => .fn (linkCallable L f c)
+  | .cls k => .cls { init := k.init.map (linkCallable L f), mro := k.mro,
+                     meths := k.meths.map (linkCallable L f), cmeths := linkCms L g 0 k.cmeths }
 
 /-- link with an arbitrary assignment of tables: `f i` for the bodies written in entry `i`,
-    `g i j` for classmethod `j` offered by class `i` -/
-def linkWith (f : Nat → Module) (g : Nat → Nat → Module) (miss : Nat) : Nat → List Entry → List Entry
+    `g i j` for classmethod `j` offered by class `i`; `L M` looks an identifier up for text of module `M` -/
+def linkWith (L : Module → Nat → Nat) (f : Nat → Module) (g : Nat → Nat → Module) : Nat → List Entry → List Entry
   | _, [] => []
-  | i, e :: es => linkEntry (f i) (g i) miss e :: linkWith f g miss (i + 1) es
-
-def MProg.moduleAt (MP : MProg) (m : Nat) : Module := MP.mods.getD m default
+  | i, e :: es => linkEntry L (f i) (g i) e :: linkWith L f g (i + 1) es
 
 /-- the module whose text holds the bodies of entry `i` -/
 def MProg.moduleOfEntry (MP : MProg) (i : Nat) : Module := MP.moduleAt (MP.modOf.getD i 0)
@@ -102,12 +126,63 @@ def MProg.moduleOfEntry (MP : MProg) (i : Nat) : Module := MP.moduleAt (MP.modOf
 /-- the class that defines classmethod `j` offered by class `i` (itself when not listed) -/
 def MProg.definer (MP : MProg) (i j : Nat) : Nat := ((MP.cmDef.getD i []).getD j i)
 
-def link (MP : MProg) : Prog :=
-  ⟨linkWith MP.moduleOfEntry (fun i j => MP.moduleOfEntry (MP.definer i j)) MP.src.entries.length 0 MP.src.entries⟩
+def linkEntries (MP : MProg) (stat : Bool) : List Entry :=
+  linkWith (MP.lookup stat MP.src.entries.length) MP.moduleOfEntry (fun i j => MP.moduleOfEntry (MP.definer i j)) 0 MP.src.entries
 
-def resolveOutM (MP : MProg) (c : CId) : Out := resolveOut (link MP) c
-def resolveM (MP : MProg) (c : CId) : List Param := resolve (link MP) c
-def acceptsM (MP : MProg) (c : CId) (n : String) : Bool := accepts (link MP) c n
+/-! ### `super(X, self)`: the resolver's search by name -/
+
+def MProg.nameOf (MP : MProg) (i : Nat) : Nat := MP.nameSym.getD i (MP.src.entries.length + 1 + i)
+
+/-- `for cls in classes[idx:]: if args[0].id == cls.__name__ and cls is getattr(module, cls.__name__, None)` with
+    `module = inspect.getmodule(classes[idx])`, `classes[idx] = h`: the class the module of `h` binds under the name
+    of `x`, provided it carries that name itself (whether it is in `classes[idx:]` is `dropTo`'s business) -/
+def MProg.byName (MP : MProg) (h x : Nat) : Option Nat :=
+  match (MP.moduleOfEntry h).globals.lookup (MP.nameOf x) with
+  | some d => if MP.nameOf d = MP.nameOf x then some d else none
+  | none => none
+
+/-- the classes `X` of the `super(X, self)` calls in the live text of a body -/
+def frmsOf (c : Callable) : List Nat :=
+  (liveUses c.uses).filterMap (fun u => match u with
+    | .superCall (some x) _ _ => some x
+    | _ => none)
+
+/-- for every class `h`: the body visited while `classes[idx] = h` (its own `__init__`, else the inherited one,
+    visited at MRO index 0) and what the search by name finds for each `X` in it, when that is not `X` -/
+def superPairs (MP : MProg) (P0 : Prog) : Nat → List Entry → List ((Nat × Nat) × Option Nat)
+  | _, [] => []
+  | h, e :: es =>
+    (match e with
+      | .cls k =>
+        let body := match k.init with
+          | some c => some c
+          | none =>
+            match nextInit P0 k.mro with
+            | some (d, _) => P0.ownInit d
+            | none => none
+        match body with
+        | some c => (frmsOf c).filterMap (fun x => if MP.byName h x = some x then none else some ((h, x), MP.byName h x))
+        | none => []
+      | .fn _ => []) ++ superPairs MP P0 (h + 1) es
+
+/-- the program as Python runs it -/
+def linkD (MP : MProg) : Prog := ⟨linkEntries MP false, []⟩
+
+/-- the program as `_parameter_resolvers.py` reads it -/
+def linkS (MP : MProg) : Prog :=
+  ⟨linkEntries MP true, superPairs MP ⟨linkEntries MP true, []⟩ 0 (linkEntries MP true)⟩
+
+abbrev link (MP : MProg) : Prog := linkD MP
+
+def resolveOutM (MP : MProg) (c : CId) : Out := resolveOut (linkS MP) c
+def resolveM (MP : MProg) (c : CId) : List Param := resolve (linkS MP) c
+def acceptsM (MP : MProg) (c : CId) (n : String) : Bool := accepts (linkD MP) c n
+
+/-- decidable: no inherited `super(X, self)` is searched in a module that binds the name of `X` differently -/
+def noForeignTwoArgSuper (MP : MProg) : Bool := (linkS MP).superMap.isEmpty
+
+/-- decidable: no identifier imported inside a body denotes something else at module level there -/
+def noShadowedLocalImport (MP : MProg) : Bool := decide (linkEntries MP true = linkEntries MP false)
 
 /-! ### which module tables matter -/
 
